@@ -42,6 +42,20 @@ theorem deStr_quote (visit : Bytes → FromValue.R) (s : Bytes) (hu : Spec.Utf8.
   congr 2
   omega
 
+omit hext hap ext in
+/-- the same, on the quoted spelling -/
+theorem deStr_quote' (visit : Bytes → FromValue.R) (s : Bytes) (hu : Spec.Utf8.validUtf8 s = true) (rest : Bytes) (pos : Nat) :
+    deStr env visit (quote s ++ rest) pos = fixPos env false (ofVisit (visit s) rest (pos + (quote s).length)) := by
+  rw [quote_eq]
+  simp only [List.cons_append, List.append_assoc, List.singleton_append]
+  unfold deStr
+  rw [withPeek_cons env _ (by decide)]
+  simp only [beq_self_eq_true, if_true]
+  rw [parseStr_quote env hflt s (fun _ => hu)]
+  simp only [Res.bind, List.length_cons, List.length_append, List.length_nil]
+  congr 2
+  omega
+
 /-- string-like targets (`String`, `char`, identifiers): the visitor's verdict on the string, failure on anything else -/
 theorem agree_strlike (visit : Bytes → FromValue.R) (v : JV) (hv : VOK v) :
     Agree1 (deStr env visit) (match v with | .str s => visit s | _ => FromValue.fail) (T ext v) := by
